@@ -907,3 +907,33 @@ def rule_duplicate_refused_first(ctx):
         ctx.violated("DUPFIRST", key, f.where(first), "HTPcreate stores the new tag/ref into a descriptor (line %d) without having looked the pair up first: a duplicate is noticed only by the "
                      "registration, after the descriptor was written, and the error path destroys the tag's live ref table" % first)
     return 1
+
+
+def rule_failure_tested_wide(ctx):
+    """NARROWFAIL (C12, C20): 65535 is a legal reference number.  A search result that is narrowed to 16 bits before it is compared
+    with the (equally narrowed) failure value can no longer tell 'reference 65535' from 'nothing found'.  In the directory code
+    (hfiledd.c) no comparison has the narrowed failure value 0xFFFF on one side and a value cast to 16 bits on the other."""
+    prog = ctx.prog
+    n = 0
+    for f in prog.lib_funcs():
+        if not f.rel.endswith("hfiledd.c"):
+            continue
+        cmps = 0
+        for _b, _i, s, x in f.nodes(True):
+            if x[0] == "bin" and x[1] in ("==", "!="):
+                cmps += 1
+                for a, o in ((x[2], x[3]), (x[3], x[2])):
+                    if is_int(o) and int_val(o) == 0xFFFF:
+                        ua = a
+                        while isinstance(ua, list) and ua and ua[0] == "seen":
+                            ua = ua[1]
+                        inner = ua[3] if kind(ua) == "asg" else ua
+                        while isinstance(inner, list) and inner and inner[0] == "seen":
+                            inner = inner[1]
+                        if kind(inner) == "cast" and inner[1] in ("uint16", "unsigned short") and kind(strip(inner[2])) == "call":
+                            ctx.violated("NARROWFAIL", "NARROWFAIL:%s" % f.name, f.where(s.get("l")), "`%s` compares a search result with the failure value after both were narrowed to 16 bits: "
+                                         "the legal reference 65535 is taken for a failure" % render(x)[:80])
+        n += cmps
+    ctx.holds("NARROWFAIL", "NARROWFAIL:hfiledd", "hdf/src/hfiledd.c", "%d equality tests, none between a narrowed search result and 0xFFFF" % n, nontrivial=False)
+    ctx.floor("NARROWFAIL", 20, n, "(equality tests in hfiledd.c)")
+    return n
